@@ -69,3 +69,72 @@ Definition missing (c : ccase) : list (nat * nat * nat * nat * nat) :=
                           then [] else [(l_chain (fst lk), meth_code (l_meth (fst lk)), l_idx (fst lk),
                                          l_epoch (fst lk), l_time (fst lk))]) calls
   end.
+
+(* ------------------------------------------------------------------------------------------ *)
+(* State part: the harness's key-driven integer random walk (harness/lv/c10_kit.py) as a [world] *)
+(* ------------------------------------------------------------------------------------------ *)
+(* threefry is an oracle: the harness derives the concrete key along a path with jax.random.split and
+   supplies, per case, the small number the harness kernel / jitter function computes from that key,
+   indexed by the path code.  A path the table does not know gives a value no run can produce. *)
+Definition kv (tbl : list (N * Z)) (k : key) : Z :=
+  match find (fun x => N.eqb (fst x) (encode k)) tbl with
+  | Some x => snd x
+  | None => (-1000000)%Z
+  end.
+Definition zget (l : list Z) (i : nat) : Z := nth i l (-2000000)%Z.
+Fixpoint zset (l : list Z) (i : nat) (v : Z) : list Z :=
+  match l, i with
+  | [], _ => []
+  | _ :: r, O => v :: r
+  | x :: r, S j => x :: zset r j v
+  end.
+
+(* model state = slot 0 of the positions [p0; ...; p(nk-1); x];
+   kernel i:  p_i := (3 p_i + p_((i+1) mod nk) + d(key)) mod 9973   (reads the state as left by kernel i-1);
+   jitter function f (dict order) on position tgt_f:  value + d'(key) *)
+Definition rw_world (nk : nat) (tgt : list nat) (tbl : list (N * Z)) (p : params) (sched : list econf) : world :=
+  mkW (list Z) Z (list Z) Z Z Z
+      (fun ms => ms)
+      (fun ks ms => fold_left (fun m kt => zset m (snd kt) (zget m (snd kt) + kv tbl (fst kt))%Z)
+                              (combine ks tgt) ms)
+      (fun _ _ _ => 0%Z)
+      (fun _ _ s _ _ _ => s)
+      (fun i k s ms _ _ =>
+         (s, zset ms i ((3 * zget ms i + zget ms (S i mod nk) + kv tbl k) mod 9973)%Z, 0%Z))
+      (fun _ _ s _ _ _ => s)
+      (fun _ _ s _ _ _ _ => (s, 0%Z))
+      (fun _ _ s _ _ => s)
+      (fun _ _ _ _ _ => 0%Z)
+      p sched false.
+
+Record scase := mkSC {
+  sc_nch : nat; sc_jit : option nat; sc_tgt : list nat; sc_nker : nat; sc_nqg : nat; sc_chunk : nat;
+  sc_sched : list (Z * Z * Z);
+  sc_tbl : list (N * Z);
+  sc_init : init_arg (list Z);
+  sc_raised : bool;                               (* the real run raised *)
+  sc_stored : list (list (nat * nat * list Z)) }. (* per chain: (epoch, time_in_epoch, position) *)
+
+Definition sc_world (c : scase) : world :=
+  rw_world (sc_nker c) (sc_tgt c) (sc_tbl c) (mkP (sc_nker c) (sc_nqg c) (sc_chunk c)) (sched_of (sc_sched c)).
+
+Definition entry_eqb (x y : nat * nat * list Z) : bool :=
+  (fst (fst x) =? fst (fst y)) && (snd (fst x) =? snd (fst y)) && list_eqb Z.eqb (snd x) (snd y).
+
+Definition s_model (v : siv_variant) (c : scase) : option (list (list (nat * nat * list Z))) :=
+  match W_run_batched (sc_world c) v [] (sc_nch c) (sc_jit c) (sc_init c) with
+  | None => None
+  | Some r => Some (map (W_stored (sc_world c)) r)
+  end.
+
+Definition s_agrees (v : siv_variant) (c : scase) : bool :=
+  match s_model v c with
+  | None => sc_raised c
+  | Some st => negb (sc_raised c) && list_eqb (list_eqb entry_eqb) st (sc_stored c)
+  end.
+
+(* the first-sample clause alone, read off the model: jitter_c (init_c) *)
+Definition s_first (c : scase) : list (option (list Z)) :=
+  map (fun ch => match W_init_of (sc_world c) (sc_nch c) (sc_init c) ch with
+                 | Some i0 => Some (W_jittered (sc_world c) [] (sc_nch c) (sc_jit c) ch i0)
+                 | None => None end) (seq 0 (sc_nch c)).
